@@ -388,7 +388,7 @@ def run_case(ctx, case):
       keep = ~np.any(xk == np.float32(miv), axis=1)
     else:
       keep = np.ones(nk, dtype=bool)
-    if units > 1 and not np.allclose(xk, xk[:, :1]):
+    if units > 1 and not np.array_equal(xk, np.repeat(xk[:, :1], units, axis=1)):   # exact: np.allclose calls keypoints 9e-4 apart at offset 100 equal
       feed = xk
     else:
       feed = xk if wide else xk[:, :1]
